@@ -1,4 +1,4 @@
 SPECIFICATION GSpec
 CONSTANTS
-  Families = {"A", "B", "C1", "C2"}
+  Families = {"A", "B", "C1", "C2", "E", "K"}
 CHECK_DEADLOCK FALSE
